@@ -31,6 +31,15 @@ var prologueHelpers = map[string]bool{
 	"(*Context).add": true, "(*Context).quoSpecials": true, "(*Context).rootSpecials": true, "(*Context).logSpecials": true, "(*Context).toIntegralSpecials": true,
 }
 
+// gdaOperations: the Context operations with operands that exist in the API the properties were
+// stated for (by method name).
+var gdaOperations = map[string]bool{
+	"Abs": true, "Add": true, "Cbrt": true, "Ceil": true, "Cmp": true, "Exp": true, "Floor": true, "Ln": true, "Log10": true,
+	"Mul": true, "Neg": true, "Pow": true, "Quantize": true, "Quo": true, "QuoInteger": true, "Reduce": true, "Rem": true,
+	"Round": true, "RoundToIntegralExact": true, "RoundToIntegralValue": true, "Sqrt": true, "Sub": true,
+	"SetString": true, "NewFromString": true,
+}
+
 // prologueExempt: exported Context methods whose *Decimal parameters are not
 // arithmetic operands.
 var prologueExempt = map[string]string{
@@ -160,6 +169,12 @@ func ruleNaNPrologue(w *World, r *RuleResult) {
 			continue
 		}
 		key := name + " | NaN prologue"
+		if !gdaOperations[f.Name()] {
+			// an operation added after this rule set was written: whether NaNs propagate through it is part of
+			// its own specification (compare-total, for instance, orders NaNs); not decided here
+			r.ok(key, w.pos(f.Pos()), "not one of the operations the property was stated for: not decided", false)
+			continue
+		}
 		if why := prologueExempt[name]; why != "" {
 			r.ok(key, w.pos(f.Pos()), "tabled: "+why, false)
 			continue
